@@ -6,7 +6,7 @@
      flows/definition/migrations/primitives.go  Flow.Nodes/Localization, Node.Actions/Router, Action.Type/UUID,
                                                 GetObjectUUID, ItemTranslation.Get/Set/Delete,
                                                 LanguageTranslation.GetTranslation/SetTranslation/DeleteTranslation
-     flows/definition/migrations/templates.go   RewriteTemplates, rewriteTemplates, rewriteTranslations
+     flows/definition/migrations/templates.go   RewriteTemplates, rewriteTemplates, rewriteOrphanTranslations, rewriteTranslations
      utils/jsonpath/path.go                     parsePath, Transform/visit
    Tables from the source (regenerated on every run): gen/MigrationTable.v -- registered (version, function),
    current_spec_version, the template catalog Migrate13_3 uses.
@@ -391,6 +391,61 @@ Section Rewrite.
     | None => (loc, o)
     end.
 
+  (* jsonpath.Visit: the values a path reaches *)
+  Fixpoint visit_values (path : list str) (j : json) : list json :=
+    match path with
+    | [] => [j]
+    | sel :: rem =>
+        match j with
+        | JObj o =>
+            flat_map (fun kv : str * json =>
+                        if str_eqb (fst kv) sel || str_eqb sel star then visit_values rem (snd kv) else []) o
+        | JArr l =>
+            let index := parse_number sel in
+            snd (fold_left (fun (acc : N * list json) v =>
+                              let '(i, out) := acc in
+                              if (match index with Some n => n =? i | None => false end) || str_eqb sel star
+                              then (i + 1, out ++ visit_values rem v) else (i + 1, out)) l (0, []))
+        | _ => []
+        end
+    end.
+
+  (* text after the last dot, and before it; None: no dot (Go would slice with -1) *)
+  Fixpoint split_last_dot (x : str) : option (str * str) :=
+    match x with
+    | [] => None
+    | c :: r =>
+        match split_last_dot r with
+        | Some (a, b) => Some (c :: a, b)
+        | None => if c =? 46 then Some ([], r) else None
+        end
+    end.
+
+  (* rewriteOrphanTranslations: translations of a member that its container does not have *)
+  Definition rewrite_orphans (loc : option obj) (o : obj) (path : string) : option obj :=
+    match split_last_dot (trim_suffix star_suffix (s path)) with
+    | None => loc
+    | Some (parent, member) =>
+        if str_eqb member star then loc
+        else
+          let containers :=
+            match parent with
+            | [] => [JObj o]
+            | _ => match parse_path (dollar ++ parent) with Some steps => visit_values steps (JObj o) | None => [] end
+            end in
+          fold_left (fun loc c =>
+                       match c with
+                       | JObj c =>
+                           if negb (ohas member c) && nonempty (object_uuid c)
+                           then option_map (rewrite_translations (object_uuid c) member) loc else loc
+                       | _ => loc
+                       end) containers loc
+    end.
+
+  (* one catalogue path on one action / router: the transform, then the translations it could not reach *)
+  Definition rewrite_path (loc : option obj) (o : obj) (path : string) : option obj * obj :=
+    let '(loc1, o1) := rewrite_templates loc o path in (rewrite_orphans loc1 o1 path, o1).
+
   Fixpoint catalog_paths (tab : list (string * list string)) (t : str) : list string :=
     match tab with
     | [] => []
@@ -399,7 +454,7 @@ Section Rewrite.
 
   Definition rewrite_all (tab : list (string * list string)) (st : mstate) (o : obj) : mstate * obj :=
     let '(loc', o') :=
-      fold_left (fun (acc : option obj * obj) p => rewrite_templates (fst acc) (snd acc) p)
+      fold_left (fun (acc : option obj * obj) p => rewrite_path (fst acc) (snd acc) p)
                 (catalog_paths tab (type_of o)) (snd st, o) in
     ((fst st, loc'), o').
 
